@@ -157,9 +157,11 @@ Fixpoint go_seq (k : nat) (op step : Z) (v lim : Z) : list Z :=
       end
   end.
 
-Definition step_cell (c : ctx) (idx : nat) (step : Z) : ctx :=
-  w_bufLC c (set_nth_l (bufLC c) idx
-               (match step64 step (nth idx (bufLC c) 0%Z) with Some x => x | None => 0%Z end)).
+(* the counter cell is stepped and the counter variable pointed at it again *)
+Definition step_cell (n : node) (c : ctx) (idx : nat) : ctx :=
+  ctx_set (w_bufLC c (set_nth_l (bufLC c) idx
+               (match step64 (loopCntOp n) (nth idx (bufLC c) 0%Z) with Some x => x | None => 0%Z end)))
+          (loopCnt n) (VLC idx) InsStatic.
 
 (* What the loop does, written over the list of counter values: one body
    execution per value, in order; a break / lazybreak or a pending break N ends
@@ -175,8 +177,8 @@ Fixpoint run_iters (n : node) (idx : nat) (vs : list Z) (c : ctx) : ctx :=
         let '(c, br) := body fr (child n) c false in
         match br with
         | BFail e => w_cerr c (Some e)
-        | BBreak | BLazy => dec_brk (step_cell c idx (loopCntOp n))
-        | _ => run_iters n idx rest (step_cell c idx (loopCntOp n))
+        | BBreak | BLazy => dec_brk (step_cell n c idx)
+        | _ => run_iters n idx rest (step_cell n c idx)
         end
   end.
 
@@ -244,7 +246,7 @@ Fixpoint iter_reads (n : node) (idx : nat) (vs : list Z) (c : ctx) : list (Z * Z
         let '(c1, br) := body fr (child n) c0 false in
         (z, nth idx (bufLC c0) 0%Z) ::
         match br with
-        | BNone | BCont => iter_reads n idx rest (step_cell c1 idx (loopCntOp n))
+        | BNone | BCont => iter_reads n idx rest (step_cell n c1 idx)
         | _ => []
         end
   end.
